@@ -38,6 +38,7 @@ def dispatch (op : String) : Option (P Verdict) :=
   | "mlpg" => some Drv.Mlpg.run
   | "gen" => some Drv.Gen.run
   | "dur" => some Drv.Dur.runDur
+  | "durE" => some Drv.Dur.runDurE
   | "align" => some Drv.Dur.runAlign
   | _ => none
 
